@@ -775,7 +775,7 @@ func mustShift(c *c07Case) *c07Node {
 
 // ---------------------------------------------------------------- generator
 
-var c07Sheets = []string{"Sheet1", "Data2", "My Sheet", "O'Brien", "Sheet_3", "2024", "Büro", "FY24"}
+var c07Sheets = []string{"Sheet1", "Data2", "My Sheet", "O'Brien", "Sheet_3", "2024", "Büro", "FY24", "2024's", "1st Qtr '24", "Büro's", "a_b's", "FY'24", "7'x"}
 
 var c07Cols = []int{1, 2, 3, 4, 5, 8, 25, 26, 27, 28, 52, 53, 702, 703, 704, 16383, 16384}
 var c07Rows = []int{1, 2, 3, 4, 5, 9, 10, 11, 12, 99, 100, 101, 1048575, 1048576}
@@ -1222,7 +1222,7 @@ func c07Name(col, row int) string {
 }
 
 func c07Workbook(r *Run, rng *Rng, idx int) {
-	sheets := []string{"Sheet1", "Data2", "My Sheet", "O'Brien"}
+	sheets := []string{"Sheet1", "Data2", "My Sheet", "O'Brien", "2024's"}
 	f := xl.NewFile()
 	defer f.Close()
 	for _, s := range sheets[1:] {
@@ -1241,8 +1241,13 @@ func c07Workbook(r *Run, rng *Rng, idx int) {
 	if rng.Chance(50) {
 		edited = "Sheet1"
 	}
-	must(f.SetDefinedName(&xl.DefinedName{Name: "TaxRate", RefersTo: c07Prefix(edited, c07NeedsQuote(edited)) + "$B$2", Scope: "Workbook"}))
-	must(f.SetDefinedName(&xl.DefinedName{Name: "Block", RefersTo: c07Prefix(edited, c07NeedsQuote(edited)) + "$A$3:$C$5", Scope: "Workbook"}))
+	// defined names, in workbook order: names that cannot be relocated by a column resp. row insert
+	// (they already reach the last column / row) stand BEFORE names that can and that formulas use
+	pfxE := c07Prefix(edited, c07NeedsQuote(edited))
+	must(f.SetDefinedName(&xl.DefinedName{Name: "WideRow", RefersTo: pfxE + "$A$1:$XFD$1", Scope: "Workbook"}))
+	must(f.SetDefinedName(&xl.DefinedName{Name: "TaxRate", RefersTo: pfxE + "$B$2", Scope: "Workbook"}))
+	must(f.SetDefinedName(&xl.DefinedName{Name: "TallCol", RefersTo: pfxE + "$A$1:$A$1048576", Scope: "Workbook"}))
+	must(f.SetDefinedName(&xl.DefinedName{Name: "Block", RefersTo: pfxE + "$A$3:$C$5", Scope: "Workbook"}))
 	e := c07Edit{rows: rng.Bool()}
 	if rng.Chance(80) {
 		if e.rows {
@@ -1334,9 +1339,12 @@ func c07Workbook(r *Run, rng *Rng, idx int) {
 		}
 	}
 	namesBefore := map[string]string{}
+	var nameOrder []string
 	for _, d := range f.GetDefinedName() {
 		namesBefore[d.Name] = d.RefersTo
+		nameOrder = append(nameOrder, d.Name)
 	}
+	scopeBefore := c07NamesInScope(f, edited)
 	var err error
 	how := ""
 	switch {
@@ -1382,7 +1390,7 @@ func c07Workbook(r *Run, rng *Rng, idx int) {
 		v, verr := calc(cl.sheet, name)
 		r.Stat("workbook:evaluated")
 		if v != cl.val || verr != cl.valErr {
-			if usesName && c07NameTouched(namesBefore, edited, e) {
+			if usesName && c07NameTouched(namesBefore, cl.tree, edited, e) {
 				r.Stat("workbook:name-endpoint-deleted")
 				continue
 			}
@@ -1391,7 +1399,22 @@ func c07Workbook(r *Run, rng *Rng, idx int) {
 				"# "+desc+"\n"+c.opLine("s"))
 		}
 	}
-	// defined names are rewritten with keepRelative
+	// defined names are rewritten with keepRelative. Transcript op `dn`: the whole list in workbook order
+	// against Impl.adjustDefinedNames (a name whose rewrite fails keeps its text; the others are rewritten)
+	{
+		after := f.GetDefinedName()
+		if len(after) == len(nameOrder) {
+			var b strings.Builder
+			fmt.Fprintf(&b, "dn %s %d %d %s %s", e.dir(), e.num, e.off, hx(edited), c07NamesField(scopeBefore))
+			res := make([]string, len(after))
+			for i, d := range after {
+				orig := namesBefore[nameOrder[i]]
+				b.WriteString(" | " + hx(orig) + c07TokWire(c07Tokens(orig)))
+				res[i] = hx(d.RefersTo)
+			}
+			r.Op(b.String(), strings.Join(res, ","))
+		}
+	}
 	for _, d := range f.GetDefinedName() {
 		orig := namesBefore[d.Name]
 		toks := c07Tokens(orig)
@@ -1405,18 +1428,33 @@ func c07Workbook(r *Run, rng *Rng, idx int) {
 		c := &c07Case{sheet: edited, sheetN: "", kr: true, e: e, tree: t, formula: orig, how: how + ":definedName", names: c07NamesInScope(f, edited)}
 		_, status := c07ShiftTree(t, edited, "", e, true)
 		if status != "" {
-			// adjustDefinedNames keeps the old text when adjustFormulaRef fails
 			r.Stat("workbook:name-" + status)
 		}
+		if status == "grid" {
+			// the reference cannot be relocated (it would leave the grid): adjustDefinedNames keeps the old
+			// text of THIS name and goes on with the next one
+			if d.RefersTo != orig {
+				r.Fail("definedName:unadjustable-changed", fmt.Sprintf("%s: defined name %s = %q cannot be relocated but became %q", desc, d.Name, orig, d.RefersTo), 0, "# "+desc+"\n"+c.opLine("s"))
+			}
+			continue
+		}
+		c.note = fmt.Sprintf("%s; defined name %s (names in workbook order: %s)", desc, d.Name, strings.Join(nameOrder, ", "))
 		c07Check(r, c, d.RefersTo, false)
 	}
 	c07SpecialCheck(r, f, sp, edited, e, how, desc)
 }
 
-func c07NameTouched(before map[string]string, edited string, e c07Edit) bool {
-	for _, v := range before {
-		if t := c07ParseSimpleRef(v); t != nil {
-			if _, st := c07ShiftTree(t, edited, "", e, true); st != "" {
+// does the formula use a defined name one of whose endpoints is deleted by the edit? (then its value
+// may legitimately change)
+func c07NameTouched(before map[string]string, tree *c07Node, edited string, e c07Edit) bool {
+	var ops []*c07Node
+	tree.operands(&ops)
+	for _, o := range ops {
+		if o.kind != "name" {
+			continue
+		}
+		if t := c07ParseSimpleRef(before[o.s]); t != nil {
+			if _, st := c07ShiftTree(t, edited, "", e, true); st == "deleted" {
 				return true
 			}
 		}
